@@ -78,3 +78,473 @@ Proof.
   - apply N.bits_inj. intros k. rewrite N.land_spec, !bit_pow2, !N.pow2_bits_eqb, N.bits_0.
     destruct (N.eqb_spec (N.of_nat p) k), (N.eqb_spec (N.of_nat q) k); try reflexivity. lia.
 Qed.
+
+(* ------------------------------------------------------------------ number <-> mark *)
+
+Lemma land_pow2 m s : N.land (2 ^ s) m = if N.testbit m s then 2 ^ s else 0.
+Proof.
+  apply N.bits_inj; intros k. rewrite N.land_spec, N.pow2_bits_eqb.
+  destruct (N.eqb_spec s k) as [->|Hne].
+  - destruct (N.testbit m k) eqn:E; [rewrite N.pow2_bits_true|rewrite N.bits_0]; reflexivity.
+  - cbn [andb]. destruct (N.testbit m s); [rewrite N.pow2_bits_false by auto | rewrite N.bits_0]; reflexivity.
+Qed.
+
+Lemma pow2_pos k : 0 < 2 ^ k.
+Proof. apply N.neq_0_lt_0, N.pow_nonzero. discriminate. Qed.
+
+Lemma m2n_loop_spec mask mark l : forall number found,
+  m2n_loop mask mark l number found
+  = number + 2 ^ (N.of_nat found) * pext (filter (maskbit mask) l) mark.
+Proof.
+  induction l as [|s l IH]; intros number found; cbn [m2n_loop filter].
+  - cbn [pext]. lia.
+  - destruct (maskbit mask s) eqn:Hs.
+    + rewrite IH. cbn [pext]. rewrite !bit_pow2, land_pow2.
+      rewrite Nat2N.inj_succ, N.pow_succ_r'.
+      pose proof (pow2_pos (N.of_nat s)) as Hp.
+      destruct (N.testbit mark (N.of_nat s)).
+      * replace (0 <? 2 ^ N.of_nat s) with true by (symmetry; apply N.ltb_lt; exact Hp). ring.
+      * cbn [N.ltb N.compare]. ring.
+    + apply IH.
+Qed.
+
+Lemma pdep_0 ps : pdep ps 0 = 0.
+Proof. induction ps as [|p ps IH]; cbn [pdep]; [reflexivity|]. cbn [N.odd N.div2]. now rewrite IH. Qed.
+
+Lemma half_shift r f : r * 2 ^ N.of_nat f - (if N.odd r then 2 ^ N.of_nat f else 0)
+                       = N.div2 r * 2 ^ N.of_nat (S f).
+Proof.
+  rewrite Nat2N.inj_succ, N.pow_succ_r'.
+  pose proof (N.div2_odd r) as H. set (X := 2 ^ N.of_nat f).
+  destruct (N.odd r); cbn [N.b2n] in H; rewrite H at 1; nia.
+Qed.
+
+Lemma n2m_loop_spec mask l : forall r mark found,
+  n2m_loop mask l (r * 2 ^ N.of_nat found) mark found =
+  ((r / 2 ^ N.of_nat (length (filter (maskbit mask) l)))
+     * 2 ^ N.of_nat (found + length (filter (maskbit mask) l)),
+   N.lor mark (pdep (filter (maskbit mask) l) r)).
+Proof.
+  induction l as [|s l IH]; intros r mark found; cbn [n2m_loop filter].
+  - cbn [length pdep]. rewrite Nat.add_0_r. cbn [N.of_nat]. rewrite N.pow_0_r, N.div_1_r, N.lor_0_r. reflexivity.
+  - pose proof (pow2_pos (N.of_nat found)) as Hp.
+    destruct (N.eqb_spec (r * 2 ^ N.of_nat found) 0) as [Hz|Hnz].
+    + assert (r = 0) as -> by nia.
+      rewrite pdep_0, N.lor_0_r, N.div_0_l by (apply N.pow_nonzero; discriminate).
+      rewrite N.mul_0_l. reflexivity.
+    + destruct (maskbit mask s) eqn:Hs.
+      * cbn [length pdep].
+        rewrite bit_pow2, N.land_comm, land_pow2.
+        replace (N.testbit (r * 2 ^ N.of_nat found) (N.of_nat found)) with (N.odd r).
+        2:{ rewrite <- (N.add_0_l (N.of_nat found)) at 2. rewrite N.mul_pow2_bits_add. symmetry. apply N.bit0_odd. }
+        assert (forall c, r / 2 ^ N.of_nat (S c) = N.div2 r / 2 ^ N.of_nat c) as Hdiv.
+        { intros c. rewrite Nat2N.inj_succ, N.pow_succ_r', N.div2_div, N.div_div; try reflexivity.
+          - discriminate. - apply N.pow_nonzero. discriminate. }
+        destruct (N.odd r) eqn:Hodd.
+        -- replace (0 <? 2 ^ N.of_nat found) with true by (symmetry; apply N.ltb_lt; exact Hp).
+           pose proof (half_shift r found) as Hh. rewrite Hodd in Hh. rewrite Hh, IH, Hdiv.
+           apply f_equal2; [replace (S found + length (filter (maskbit mask) l))%nat with (found + S (length (filter (maskbit mask) l)))%nat by lia; reflexivity|]. now rewrite N.lor_assoc.
+        -- cbn [N.ltb N.compare].
+           pose proof (half_shift r found) as Hh. rewrite Hodd, N.sub_0_r in Hh. rewrite Hh, IH, Hdiv.
+           apply f_equal2; [replace (S found + length (filter (maskbit mask) l))%nat with (found + S (length (filter (maskbit mask) l)))%nat by lia; reflexivity|]. now rewrite N.lor_0_l.
+      * apply IH.
+Qed.
+
+Lemma map_number_to_mark_spec mask n :
+  map_number_to_mark mask n =
+  if trunc32 n <? 2 ^ N.of_nat (popcount mask)
+  then Some (pdep (positions mask) (trunc32 n)) else None.
+Proof.
+  unfold map_number_to_mark, popcount, positions.
+  pose proof (n2m_loop_spec mask shifts32 (trunc32 n) 0 0) as H.
+  cbn [N.of_nat] in H. rewrite N.pow_0_r, N.mul_1_r in H. rewrite H. clear H.
+  set (c := N.of_nat (length (filter (maskbit mask) shifts32))).
+  cbn [Nat.add]. fold c. rewrite N.lor_0_l.
+  pose proof (pow2_pos c) as Hp.
+  destruct (N.ltb_spec (trunc32 n) (2 ^ c)) as [Hlt|Hge].
+  - rewrite N.div_small by assumption. now rewrite N.mul_0_l.
+  - assert (1 <= trunc32 n / 2 ^ c) by (apply N.div_le_lower_bound; lia).
+    replace (0 <? trunc32 n / 2 ^ c * 2 ^ c) with true; [reflexivity|].
+    symmetry. apply N.ltb_lt. nia.
+Qed.
+
+Lemma map_mark_to_number_spec mask mark :
+  map_mark_to_number mask mark =
+  if N.eqb (N.land mark mask) mark then Some (pext (positions mask) mark) else None.
+Proof.
+  unfold map_mark_to_number, positions. rewrite m2n_loop_spec. cbn [N.of_nat].
+  rewrite N.pow_0_r, N.mul_1_l, N.add_0_l. reflexivity.
+Qed.
+
+Lemma testbit_pdep_in ps : forall n q, N.testbit (pdep ps n) (N.of_nat q) = true -> In q ps.
+Proof.
+  induction ps as [|p ps IH]; cbn [pdep]; intros n q H.
+  - rewrite N.bits_0 in H. discriminate.
+  - rewrite N.lor_spec in H. apply orb_true_iff in H. destruct H as [H|H].
+    + destruct (N.odd n).
+      * rewrite bit_pow2, N.pow2_bits_eqb in H. apply N.eqb_eq in H. left. lia.
+      * rewrite N.bits_0 in H. discriminate.
+    + right. eapply IH; eassumption.
+Qed.
+
+Lemma pext_lor_irrelevant ps : forall x m,
+  (forall q, In q ps -> N.testbit x (N.of_nat q) = false) -> pext ps (N.lor x m) = pext ps m.
+Proof.
+  induction ps as [|p ps IH]; cbn [pext]; intros x m H; [reflexivity|].
+  rewrite N.lor_spec, (H p) by (left; reflexivity). cbn [orb].
+  rewrite IH; [reflexivity|]. intros q Hq. apply H. right. exact Hq.
+Qed.
+
+Lemma pext_pdep ps : NoDup ps -> forall n, pext ps (pdep ps n) = n mod 2 ^ N.of_nat (length ps).
+Proof.
+  induction 1 as [|p ps Hnin ND IH]; intros n; cbn [pext pdep length].
+  - cbn [N.of_nat]. rewrite N.pow_0_r, N.mod_1_r. reflexivity.
+  - assert (N.testbit (pdep ps (N.div2 n)) (N.of_nat p) = false) as Hf.
+    { destruct (N.testbit (pdep ps (N.div2 n)) (N.of_nat p)) eqn:E; [|reflexivity].
+      exfalso. apply Hnin. eapply testbit_pdep_in; eassumption. }
+    rewrite N.lor_spec, Hf, orb_false_r.
+    rewrite pext_lor_irrelevant.
+    2:{ intros q Hq. destruct (N.odd n); [|apply N.bits_0].
+        rewrite bit_pow2. apply N.pow2_bits_false. intros E. apply Nat2N.inj in E. subst. contradiction. }
+    rewrite IH.
+    rewrite Nat2N.inj_succ, N.pow_succ_r'.
+    rewrite N.mod_mul_r by (try discriminate; apply N.pow_nonzero; discriminate).
+    rewrite <- N.div2_div, <- N.bit0_mod, N.bit0_odd.
+    destruct (N.odd n).
+    + rewrite bit_pow2, N.pow2_bits_true. reflexivity.
+    + rewrite N.bits_0. reflexivity.
+Qed.
+
+Lemma pdep_subset mask ps n :
+  (forall q, In q ps -> maskbit mask q = true) -> N.land (pdep ps n) mask = pdep ps n.
+Proof.
+  intros H. apply N.bits_inj. intros k. rewrite N.land_spec.
+  destruct (N.testbit (pdep ps n) k) eqn:E; [|reflexivity]. cbn [andb].
+  rewrite <- (N2Nat.id k) in E |- *. apply testbit_pdep_in in E. apply H in E. exact E.
+Qed.
+
+Lemma trunc32_small n : n < 4294967296 -> trunc32 n = n.
+Proof. intros. unfold trunc32. now apply N.mod_small. Qed.
+
+Lemma pow_popcount_le mask : 2 ^ N.of_nat (popcount mask) <= 4294967296.
+Proof.
+  change 4294967296 with (2 ^ 32). apply N.pow_le_mono_r; [discriminate|].
+  pose proof (popcount_le_32 mask). lia.
+Qed.
+
+Lemma pext_pdep_positions mask n :
+  pext (positions mask) (pdep (positions mask) n) = n mod 2 ^ N.of_nat (popcount mask).
+Proof. exact (pext_pdep (positions mask) (positions_NoDup mask) n). Qed.
+
+Lemma pdep_positions_subset mask n :
+  N.land (pdep (positions mask) n) mask = pdep (positions mask) n.
+Proof. apply pdep_subset. intros q Hq. apply positions_in in Hq. tauto. Qed.
+
+Lemma n2m_in_range mask n :
+  n < 2 ^ N.of_nat (popcount mask) -> map_number_to_mark mask n = Some (pdep (positions mask) n).
+Proof.
+  intros Hn. pose proof (pow_popcount_le mask) as Hle.
+  assert (trunc32 n = n) as Ht by (apply trunc32_small; eapply N.lt_le_trans; eassumption).
+  rewrite map_number_to_mark_spec, Ht.
+  destruct (N.ltb_spec n (2 ^ N.of_nat (popcount mask))) as [_|Hge]; [reflexivity|].
+  exfalso. apply (N.lt_irrefl n). eapply N.lt_le_trans; eassumption.
+Qed.
+
+Lemma m2n_of_pdep mask n :
+  n < 2 ^ N.of_nat (popcount mask) -> map_mark_to_number mask (pdep (positions mask) n) = Some n.
+Proof.
+  intros Hn. rewrite map_mark_to_number_spec, pdep_positions_subset, N.eqb_refl, pext_pdep_positions.
+  rewrite N.mod_small by exact Hn. reflexivity.
+Qed.
+
+(* every number that fits the mask maps to a mark inside the mask and back to the same number *)
+Lemma roundtrip mask n :
+  n < 2 ^ N.of_nat (popcount mask) ->
+  exists mk, map_number_to_mark mask n = Some mk
+             /\ N.land mk mask = mk
+             /\ map_mark_to_number mask mk = Some n.
+Proof.
+  intros Hn. exists (pdep (positions mask) n).
+  split; [apply n2m_in_range; exact Hn|].
+  split; [apply pdep_positions_subset|apply m2n_of_pdep; exact Hn].
+Qed.
+
+Lemma number_too_big_fails mask n :
+  2 ^ N.of_nat (popcount mask) <= trunc32 n -> map_number_to_mark mask n = None.
+Proof.
+  intros H. rewrite map_number_to_mark_spec.
+  replace (trunc32 n <? 2 ^ N.of_nat (popcount mask)) with false; [reflexivity|].
+  symmetry. apply N.ltb_ge. exact H.
+Qed.
+
+Lemma incompatible_mark_fails mask mark :
+  N.land mark mask <> mark -> map_mark_to_number mask mark = None.
+Proof.
+  intros H. rewrite map_mark_to_number_spec. apply N.eqb_neq in H. now rewrite H.
+Qed.
+
+(* ------------------------------------------------------------------ whole traces: the model meets the spec oracle *)
+
+Definition orbits (l : list nat) : N := fold_right (fun p acc => N.lor (bit p) acc) 0 l.
+
+Lemma testbit_orbits l q : N.testbit (orbits l) (N.of_nat q) = true <-> In q l.
+Proof.
+  induction l as [|p l IH]; cbn [orbits fold_right In].
+  - rewrite N.bits_0. split; [discriminate|tauto].
+  - fold (orbits l). rewrite N.lor_spec, orb_true_iff, IH, bit_pow2, N.pow2_bits_eqb, N.eqb_eq.
+    split; intros [H|H]; auto; left; lia.
+Qed.
+
+Lemma orbits_subset mask l : (forall q, In q l -> maskbit mask q = true) -> N.land (orbits l) mask = orbits l.
+Proof.
+  intros H. apply N.bits_inj. intros k. rewrite N.land_spec.
+  destruct (N.testbit (orbits l) k) eqn:E; [|reflexivity]. cbn [andb].
+  rewrite <- (N2Nat.id k) in E |- *. apply testbit_orbits in E. apply H in E. exact E.
+Qed.
+
+Lemma skipn_nth_cons {A} (l : list A) : forall n x, nth_error l n = Some x -> skipn n l = x :: skipn (S n) l.
+Proof.
+  induction l as [|y l IH]; intros [|n] x H; cbn in *; try discriminate.
+  - now inversion H.
+  - now apply IH.
+Qed.
+
+Lemma mgr_eq a b c a' b' c' : a = a' -> b = b' -> c = c' ->
+  {| m_mask := a; m_alloc := b; m_free := c |} = {| m_mask := a'; m_alloc := b'; m_free := c' |}.
+Proof. intros; subst; reflexivity. Qed.
+
+Lemma next_block_loop_spec : forall size m mark allocated,
+  next_block_loop m size mark allocated =
+  let k := Nat.min size (popcount (m_mask m) - m_alloc m) in
+  ({| m_mask := m_mask m; m_alloc := m_alloc m + k; m_free := (m_free m - Z.of_nat k)%Z |},
+   (N.lor mark (orbits (firstn k (skipn (m_alloc m) (positions (m_mask m))))), (allocated + k)%nat)).
+Proof.
+  induction size as [|size IH]; intros m mark allocated; cbn [next_block_loop].
+  - cbn [Nat.min firstn orbits fold_right]. rewrite N.lor_0_r, !Nat.add_0_r. destruct m as [mm ma mf]; cbn [m_mask m_alloc m_free].
+    f_equal. apply mgr_eq; auto. lia.
+  - unfold next_single. rewrite nth_mark_spec.
+    destruct (nth_error (positions (m_mask m)) (m_alloc m)) as [p|] eqn:E; cbn [option_map].
+    + assert (m_alloc m < popcount (m_mask m))%nat as Hlt by (apply nth_error_Some; congruence).
+      rewrite IH. cbn [m_mask m_alloc m_free].
+      replace (Nat.min (S size) (popcount (m_mask m) - m_alloc m))
+        with (S (Nat.min size (popcount (m_mask m) - S (m_alloc m)))) by lia.
+      cbv zeta. rewrite (skipn_nth_cons _ _ _ E). cbn [firstn orbits fold_right].
+      set (k := Nat.min size (popcount (m_mask m) - S (m_alloc m))).
+      f_equal; [apply mgr_eq; auto; lia|]. f_equal; [|lia].
+      fold (orbits (firstn k (skipn (S (m_alloc m)) (positions (m_mask m))))). now rewrite N.lor_assoc.
+    + assert (popcount (m_mask m) <= m_alloc m)%nat as Hge by (apply nth_error_None; exact E).
+      replace (Nat.min (S size) (popcount (m_mask m) - m_alloc m)) with 0%nat by lia.
+      cbv zeta. cbn [firstn orbits fold_right]. rewrite N.lor_0_r, !Nat.add_0_r.
+      destruct m as [mm ma mf]; cbn [m_mask m_alloc m_free]. f_equal. apply mgr_eq; auto. lia.
+Qed.
+
+Lemma popcount_len mask : popcount mask = length (positions mask).
+Proof. reflexivity. Qed.
+
+Definition Inv (mask : N) (m : mgr) (given : list N) : Prop :=
+  m_mask m = mask /\ (m_alloc m <= popcount mask)%nat
+  /\ m_free m = Z.of_nat (popcount mask - m_alloc m)
+  /\ length given = m_alloc m
+  /\ (forall b, In b given <->
+        exists i p, (i < m_alloc m)%nat /\ nth_error (positions mask) i = Some p /\ b = bit p).
+
+Lemma existsb_eqb_in b l : existsb (N.eqb b) l = true <-> In b l.
+Proof.
+  rewrite existsb_exists. split.
+  - intros [x [Hin He]]. apply N.eqb_eq in He. now subst.
+  - intros H. exists b. split; [exact H|apply N.eqb_refl].
+Qed.
+
+Lemma nth_positions_inj mask i j p :
+  nth_error (positions mask) i = Some p -> nth_error (positions mask) j = Some p -> i = j.
+Proof.
+  intros Hi Hj. pose proof (positions_NoDup mask) as ND. rewrite NoDup_nth_error in ND.
+  apply ND; [apply nth_error_Some; congruence | congruence].
+Qed.
+
+Lemma nth_error_firstn' {A} (l : list A) : forall k j, (j < k)%nat -> nth_error (firstn k l) j = nth_error l j.
+Proof.
+  induction l as [|x l IH]; intros [|k] [|j] H; cbn [firstn nth_error]; try reflexivity; try lia.
+  apply IH. lia.
+Qed.
+
+Lemma nth_error_skipn' {A} (l : list A) : forall a j, nth_error (skipn a l) j = nth_error l (a + j).
+Proof.
+  induction l as [|x l IH]; intros [|a] j; cbn [skipn nth_error Nat.add]; try reflexivity.
+  - now destruct j.
+  - apply IH.
+Qed.
+
+Lemma nth_firstn_skipn {A} (l : list A) a k j x :
+  nth_error (firstn k (skipn a l)) j = Some x -> (j < k)%nat /\ nth_error l (a + j) = Some x.
+Proof.
+  intros H. assert (j < k)%nat as Hjk.
+  { assert (j < length (firstn k (skipn a l)))%nat by (apply nth_error_Some; congruence).
+    rewrite firstn_length in *. lia. }
+  split; [exact Hjk|]. rewrite nth_error_firstn' in H by exact Hjk.
+  now rewrite nth_error_skipn' in H.
+Qed.
+
+Lemma filter_all {A} (f : A -> bool) l : (forall x, In x l -> f x = true) -> filter f l = l.
+Proof.
+  induction l as [|x l IH]; intros H; cbn [filter]; [reflexivity|].
+  rewrite (H x) by (left; reflexivity). f_equal. apply IH. intros y Hy. apply H. right. exact Hy.
+Qed.
+
+Lemma filter_none {A} (f : A -> bool) l : (forall x, In x l -> f x = false) -> filter f l = [].
+Proof.
+  induction l as [|x l IH]; intros H; cbn [filter]; [reflexivity|].
+  rewrite (H x) by (left; reflexivity). apply IH. intros y Hy. apply H. right. exact Hy.
+Qed.
+
+Lemma nodup_app_disj {A} (l1 l2 : list A) x : NoDup (l1 ++ l2) -> In x l1 -> In x l2 -> False.
+Proof.
+  induction l1 as [|a l1 IH]; cbn [app In]; intros ND H1 H2; [exact H1|].
+  inversion ND as [|? ? Hnin ND']; subst. destruct H1 as [->|H1].
+  - apply Hnin. apply in_or_app. right. exact H2.
+  - eapply IH; eassumption.
+Qed.
+
+Lemma nodup_app_r {A} (l1 l2 : list A) : NoDup (l1 ++ l2) -> NoDup l2.
+Proof.
+  induction l1 as [|a l1 IH]; cbn [app]; intros ND; [exact ND|].
+  inversion ND; subst. now apply IH.
+Qed.
+
+Lemma filter_orbits_mid A0 B0 C0 : NoDup (A0 ++ B0 ++ C0) ->
+  filter (fun p => N.testbit (orbits B0) (N.of_nat p)) (A0 ++ B0 ++ C0) = B0.
+Proof.
+  intros ND. rewrite !filter_app.
+  rewrite (filter_none _ A0), (filter_all _ B0), (filter_none _ C0).
+  - now rewrite app_nil_r.
+  - intros x Hx. destruct (N.testbit (orbits B0) (N.of_nat x)) eqn:E; [|reflexivity].
+    exfalso. apply testbit_orbits in E. apply nodup_app_r in ND. eapply nodup_app_disj; eassumption.
+  - intros x Hx. now apply testbit_orbits.
+  - intros x Hx. destruct (N.testbit (orbits B0) (N.of_nat x)) eqn:E; [|reflexivity].
+    exfalso. apply testbit_orbits in E. eapply nodup_app_disj; [exact ND|exact Hx|].
+    apply in_or_app. left. exact E.
+Qed.
+
+Lemma filter_orbits_sub ps a k : NoDup ps ->
+  filter (fun p => N.testbit (orbits (firstn k (skipn a ps))) (N.of_nat p)) ps = firstn k (skipn a ps).
+Proof.
+  intros ND.
+  assert (ps = firstn a ps ++ firstn k (skipn a ps) ++ skipn k (skipn a ps)) as Hd
+    by (now rewrite !firstn_skipn).
+  set (B0 := firstn k (skipn a ps)) in *.
+  rewrite Hd at 1. apply filter_orbits_mid. rewrite <- Hd. exact ND.
+Qed.
+
+Lemma Inv_extend mask m given k :
+  Inv mask m given -> (k <= popcount mask - m_alloc m)%nat ->
+  Inv mask {| m_mask := m_mask m; m_alloc := m_alloc m + k; m_free := (m_free m - Z.of_nat k)%Z |}
+      (map bit (firstn k (skipn (m_alloc m) (positions mask))) ++ given).
+Proof.
+  intros (Hm & Hle & Hfree & Hlen & Hin) Hk. unfold Inv. cbn [m_mask m_alloc m_free].
+  split; [exact Hm|]. split; [lia|]. split; [lia|]. split.
+  - rewrite app_length, map_length, firstn_length, skipn_length. rewrite popcount_len in *. lia.
+  - intros b. rewrite in_app_iff. split.
+    + intros [H|H].
+      * apply in_map_iff in H. destruct H as (p & <- & Hp).
+        apply In_nth_error in Hp. destruct Hp as [j Hj]. apply nth_firstn_skipn in Hj.
+        destruct Hj as [Hjk Hj]. exists (m_alloc m + j)%nat, p. split; [lia|]. split; [exact Hj|reflexivity].
+      * apply Hin in H. destruct H as (i & p & Hi & Hp & ->). exists i, p. split; [lia|]. tauto.
+    + intros (i & p & Hi & Hp & ->). destruct (Nat.lt_ge_cases i (m_alloc m)) as [Hlt|Hge].
+      * right. apply Hin. exists i, p. tauto.
+      * left. apply in_map. apply nth_error_In with (n := (i - m_alloc m)%nat).
+        rewrite nth_error_firstn' by lia. rewrite nth_error_skipn'.
+        replace (m_alloc m + (i - m_alloc m))%nat with i by lia. exact Hp.
+Qed.
+
+Lemma Inv_not_given mask m given j p :
+  Inv mask m given -> nth_error (positions mask) (m_alloc m + j) = Some p -> ~ In (bit p) given.
+Proof.
+  intros (Hm & Hle & Hfree & Hlen & Hin) Hp H. apply Hin in H. destruct H as (i & q & Hi & Hq & He).
+  apply bit_inj in He. subst q. pose proof (nth_positions_inj _ _ _ _ Hp Hq). lia.
+Qed.
+
+Lemma shiftl1 k : N.shiftl 1 k = 2 ^ k.
+Proof. apply N.shiftl_1_l. Qed.
+
+Lemma meets_spec_from mask : forall ops m given,
+  Inv mask m given -> ok_trace_from mask given ops (run m ops) = true.
+Proof.
+  induction ops as [|o ops IH]; intros m given HI; [reflexivity|].
+  pose proof HI as (Hm & Hle & Hfree & Hlen & Hin).
+  cbn [run]. destruct o as [|size| | |n|mk]; cbn [step].
+  - (* NextSingle *)
+    unfold next_single. rewrite nth_mark_spec, Hm.
+    destruct (nth_error (positions mask) (m_alloc m)) as [p|] eqn:E; cbn [option_map ok_trace_from].
+    + assert (m_alloc m < popcount mask)%nat as Hlt by (rewrite popcount_len; apply nth_error_Some; congruence).
+      pose proof (Inv_extend mask m given 1 HI ltac:(lia)) as HI'.
+      rewrite (skipn_nth_cons _ _ _ E) in HI'. cbn [firstn map app] in HI'.
+      replace {| m_mask := m_mask m; m_alloc := m_alloc m + 1; m_free := (m_free m - Z.of_nat 1)%Z |}
+        with {| m_mask := m_mask m; m_alloc := S (m_alloc m); m_free := Z.pred (m_free m) |} in HI'
+        by (apply mgr_eq; lia).
+      rewrite Hm in HI'.
+      rewrite (IH _ _ HI'), andb_true_r. apply andb_true_iff. split.
+      * unfold is_single_bit_in. apply existsb_exists. exists p. split; [eapply nth_error_In; exact E|apply N.eqb_refl].
+      * apply negb_true_iff. destruct (existsb (N.eqb (bit p)) given) eqn:Ex; [|reflexivity].
+        exfalso. apply existsb_eqb_in in Ex. eapply (Inv_not_given mask m given 0); [exact HI| |exact Ex].
+        now rewrite Nat.add_0_r.
+    + assert (popcount mask <= m_alloc m)%nat as Hge by (rewrite popcount_len; apply nth_error_None; exact E).
+      rewrite (IH _ _ HI), andb_true_r. apply Nat.eqb_eq. lia.
+  - (* NextBlock *)
+    unfold next_block. rewrite next_block_loop_spec, Hm. cbv zeta. cbn [ok_trace_from].
+    set (k := Nat.min size (popcount mask - m_alloc m)).
+    set (sub := firstn k (skipn (m_alloc m) (positions mask))).
+    rewrite N.lor_0_l, Nat.add_0_l.
+    assert (filter (fun p => N.testbit (orbits sub) (N.of_nat p)) (positions mask) = sub) as Hf
+      by (apply filter_orbits_sub, positions_NoDup).
+    rewrite Hf.
+    assert (k <= popcount mask - m_alloc m)%nat as Hkle by apply Nat.le_min_r.
+    assert (length sub = k) as Hsl.
+    { unfold sub. rewrite firstn_length, skipn_length. rewrite popcount_len in *. lia. }
+    pose proof (Inv_extend mask m given k HI Hkle) as HI'. rewrite Hm in HI'. fold sub in HI'.
+    rewrite (IH _ _ HI'), andb_true_r.
+    repeat (apply andb_true_iff; split).
+    + apply Nat.eqb_eq. rewrite Hlen. reflexivity.
+    + apply N.eqb_eq. apply orbits_subset. intros q Hq. unfold sub in Hq.
+      apply In_nth_error in Hq. destruct Hq as [j Hj]. apply nth_firstn_skipn in Hj. destruct Hj as [_ Hj].
+      apply nth_error_In in Hj. apply positions_in in Hj. tauto.
+    + apply Nat.eqb_eq. exact Hsl.
+    + apply forallb_forall. intros p Hp. apply negb_true_iff.
+      destruct (existsb (N.eqb (bit p)) given) eqn:Ex; [|reflexivity]. exfalso.
+      apply existsb_eqb_in in Ex. unfold sub in Hp. apply In_nth_error in Hp. destruct Hp as [j Hj].
+      apply nth_firstn_skipn in Hj. destruct Hj as [_ Hj]. exact (Inv_not_given mask m given j p HI Hj Ex).
+  - (* Avail *)
+    cbn [ok_trace_from]. rewrite (IH _ _ HI), andb_true_r. unfold available. apply Z.eqb_eq. rewrite Hfree, Hlen. reflexivity.
+  - (* FreeNumber *)
+    cbn [ok_trace_from]. rewrite (IH _ _ HI), andb_true_r. unfold current_free_number. apply Z.eqb_eq.
+    rewrite Hfree, Hlen. destruct (Nat.eqb_spec (popcount mask - m_alloc m) 0) as [->|Hne]; [reflexivity|].
+    replace (0 <? Z.of_nat (popcount mask - m_alloc m))%Z with true; [reflexivity|].
+    symmetry. apply Z.ltb_lt. lia.
+  - (* N2M *)
+    rewrite Hm, map_number_to_mark_spec.
+    destruct (N.ltb_spec (trunc32 n) (2 ^ N.of_nat (popcount mask))) as [Hlt|Hge]; cbn [ok_trace_from].
+    + rewrite (IH _ _ HI), andb_true_r, shiftl1.
+      repeat (apply andb_true_iff; split).
+      * apply N.ltb_lt. exact Hlt.
+      * apply N.eqb_eq. apply pdep_positions_subset.
+      * apply N.eqb_eq. rewrite pext_pdep_positions. apply N.mod_small. exact Hlt.
+    + rewrite (IH _ _ HI), andb_true_r, shiftl1. apply N.leb_le. exact Hge.
+  - (* M2N *)
+    rewrite Hm, map_mark_to_number_spec.
+    destruct (N.eqb_spec (N.land (trunc32 mk) mask) (trunc32 mk)) as [He|Hne]; cbn [ok_trace_from].
+    + rewrite (IH _ _ HI), andb_true_r. apply andb_true_iff. split; [apply N.eqb_eq; exact He|apply Z.eqb_refl].
+    + rewrite (IH _ _ HI), andb_true_r. apply negb_true_iff. apply N.eqb_neq. exact Hne.
+Qed.
+
+Lemma Inv_init mask : Inv (trunc32 mask) (new_mgr mask) [].
+Proof.
+  unfold Inv, new_mgr. cbn [m_mask m_alloc m_free length In].
+  split; [reflexivity|]. split; [lia|]. split.
+  - rewrite Nat.sub_0_r. f_equal. unfold popcount, positions.
+    induction shifts32 as [|s l IH]; cbn [count_bits filter length]; [reflexivity|].
+    destruct (maskbit (trunc32 mask) s); cbn [length]; lia.
+  - split; [reflexivity|]. intros b. split; [tauto|]. intros (i & p & Hi & _). lia.
+Qed.
+
+(* every run of the model, from any mask and over any operation sequence, is accepted by the oracle *)
+Lemma model_meets_spec mask ops : ok_trace mask ops (run (new_mgr mask) ops) = true.
+Proof. unfold ok_trace. apply meets_spec_from. apply Inv_init. Qed.
